@@ -153,15 +153,20 @@ pub fn interpret(data: &Rcvar, node: &Ast, ctx: &mut Context<'_>) -> SearchResul
                 fn_args.push(interpret(data, arg, ctx)?);
             }
             // Reset the offset so that it points to the function being evaluated.
+            let outer_offset = ctx.offset;
             ctx.offset = offset;
-            match ctx.runtime.get_function(name) {
+            let result = match ctx.runtime.get_function(name) {
                 Some(f) => f.evaluate(&fn_args, ctx),
                 None => {
                     let reason =
                         ErrorReason::Runtime(RuntimeError::UnknownFunction(name.to_owned()));
                     Err(JmespathError::from_ctx(ctx, reason))
                 }
-            }
+            };
+            // Point back at the enclosing call (e.g. a sort_by that is still
+            // evaluating its expression reference).
+            ctx.offset = outer_offset;
+            result
         }
         Ast::Expref { ref ast, .. } => Ok(Rcvar::new(Variable::Expref(*ast.clone()))),
         Ast::Slice {
